@@ -324,23 +324,28 @@ Definition p_plus (p : parser) : parser := p_seq p (p_star p).
 Infix "&>" := p_seq (at level 41, right associativity).
 Infix "</>" := p_alt (at level 42, right associativity).
 
+Definition p_range (a b : ascii) : parser :=            (* 'a'..'f' *)
+  p_class (fun c => (acode a <=? acode c) && (acode c <=? acode b)).
 Definition is_bit (c : ascii) : bool := (acode c =? 48) || (acode c =? 49).
 Definition is_hex (c : ascii) : bool :=
   is_digit c || ((97 <=? acode c) && (acode c <=? 102)) || ((65 <=? acode c) && (acode c <=? 70)).
 Definition ASCII_DIGIT := p_class is_digit.
-Definition g_sign := p_opt (p_lit "+" </> p_lit "-").
+(* The seven rules below mirror grammar.pest token for token; coq/gen/NumGrammar.v is regenerated
+   from grammar.pest on every run and Properties/C16.v checks that it is this very term. *)
 (* integer = _{ ("+" | "-")? ~ ASCII_DIGIT+ } *)
-Definition g_integer := g_sign &> p_plus ASCII_DIGIT.
+Definition g_integer := p_opt (p_lit "+" </> p_lit "-") &> p_plus ASCII_DIGIT.
+Definition g_sign := p_opt (p_lit "+" </> p_lit "-").
 (* binary_digits = _{ ("0" | "1")+ ~ ("_"+ ~ ("0" | "1")+)* } *)
 Definition g_binary_digits :=
-  p_plus (p_class is_bit) &> p_star (p_plus (p_lit "_") &> p_plus (p_class is_bit)).
-(* hex_digits = _{ (ASCII_DIGIT | 'a'..'f' | 'A'..'F')+ ~ ("_"+ ~ (...)+)* } *)
+  p_plus (p_lit "0" </> p_lit "1") &> p_star (p_plus (p_lit "_") &> p_plus (p_lit "0" </> p_lit "1")).
+(* hex_digits = _{ (ASCII_DIGIT | 'a'..'f' | 'A'..'F')+ ~ ("_"+ ~ (ASCII_DIGIT | 'a'..'f' | 'A'..'F')+)* } *)
 Definition g_hex_digits :=
-  p_plus (p_class is_hex) &> p_star (p_plus (p_lit "_") &> p_plus (p_class is_hex)).
+  p_plus (ASCII_DIGIT </> p_range "a" "f" </> p_range "A" "F")
+  &> p_star (p_plus (p_lit "_") &> p_plus (ASCII_DIGIT </> p_range "a" "f" </> p_range "A" "F")).
 (* binary_number = _{ ("+" | "-")? ~ "0b" ~ binary_digits } *)
-Definition g_binary_number := g_sign &> p_lit "0b" &> g_binary_digits.
+Definition g_binary_number := p_opt (p_lit "+" </> p_lit "-") &> p_lit "0b" &> g_binary_digits.
 (* hex_number = _{ ("+" | "-")? ~ "0x" ~ hex_digits } *)
-Definition g_hex_number := g_sign &> p_lit "0x" &> g_hex_digits.
+Definition g_hex_number := p_opt (p_lit "+" </> p_lit "-") &> p_lit "0x" &> g_hex_digits.
 (* decimal_number = _{ (integer ~ ("_"+ ~ integer)* ~ ("." ~ ASCII_DIGIT+)?
                         | !integer ~ "." ~ ASCII_DIGIT+) ~ (^"e" ~ integer)? } *)
 Definition g_decimal_number :=
